@@ -469,6 +469,26 @@ func main() {
 			}
 		}
 	}
+	// 0c. long paths: every path length from 4 to 64 hop fields, 1-3 segments, local hop near the
+	//     start / middle / end, IPv4 and IPv6 hosts, outcomes that make the router build an SCMP reply
+	//     (reply header lengths cross every headroom / maximum-size boundary of prepareSCMP), SCMP
+	//     authentication on and off, small and large payload
+	var longSample []rtpkt.Named
+	for n := 4; n <= 64; n++ {
+		for pi, pl := range [][]byte{[]byte("verif-C08-payload"), make([]byte, 1100)} {
+			if pi == 1 && n%4 != 0 && !vt.Thorough() {
+				continue
+			}
+			for i, c := range rtpkt.LongPaths(n, pl, vt.Thorough()) {
+				for _, auth := range []bool{false, true} {
+					f.feed(input{c.Raw, c.Via, auth, c.Name})
+				}
+				if pi == 0 && (i+n)%9 == 0 {
+					longSample = append(longSample, c)
+				}
+			}
+		}
+	}
 	// 1. exhaustive single-field families on every corpus packet (own ingress; both routers
 	//    alternately): header bytes to every value, truncation at every length
 	for _, c := range corpus {
@@ -539,6 +559,9 @@ func main() {
 		switch x := rng.Intn(20); {
 		case x < 14:
 			c := corpus[rng.Intn(len(corpus))]
+			if rng.Intn(4) == 0 && len(longSample) > 0 {
+				c = longSample[rng.Intn(len(longSample))]
+			}
 			b, d := mutate(rng, c.Raw, corpus)
 			via := c.Via
 			if rng.Intn(4) == 0 {
